@@ -21,6 +21,7 @@ import (
 	"github.com/refraction-networking/conjure/pkg/transports/wrapping/obfs4"
 	"github.com/refraction-networking/conjure/pkg/transports/wrapping/prefix"
 	pb "github.com/refraction-networking/conjure/proto"
+	"google.golang.org/protobuf/proto"
 
 	"verif/sim"
 	"verif/sim/hook"
@@ -102,6 +103,10 @@ func c02Scenario(r *sim.Run) {
 			case 1:
 				tt = pb.TransportType_Prefix
 				params = &prefix.ClientParams{PrefixID: int32(tp.Choose("prefixid", 10))}
+				if tp.Prob("prefix-id-unset", 1, 4) {
+					// parameters present but without a prefix id: every reader treats that as the Min prefix
+					params = &pb.PrefixTransportParams{RandomizeDstPort: proto.Bool(false)}
+				}
 			default:
 				tt = pb.TransportType_Obfs4
 			}
@@ -329,7 +334,10 @@ func c02Scenario(r *sim.Run) {
 							label = "obfs4 handshake keyed with the secret of a prefix registration"
 							send, err = foreignFlight(x, pb.TransportType_Obfs4, nil)
 						default:
-							mine := x.c.params.(*prefix.ClientParams).PrefixID
+							mine := int32(0)
+							if cp, ok := x.c.params.(*prefix.ClientParams); ok {
+								mine = cp.PrefixID
+							}
 							other := (mine + 1 + int32(tp.Choose("fprefix", 9))) % 10
 							label = fmt.Sprintf("prefix flight with prefix id %d for a registration made with prefix id %d", other, mine)
 							send, err = foreignFlight(x, pb.TransportType_Prefix, &prefix.ClientParams{PrefixID: other})
